@@ -56,6 +56,7 @@ Record model := { m_lib : lib; m_actor_ty : string; m_script : string; m_live : 
                   m_play : option play; m_methods : list lmethod;
                   m_live_attrs : list string; m_live_vis : string; m_live_fields : list (string * string);
                   m_traits : list string; m_script_fns : list string; m_roots : list string; m_unknown : list string;
-                  m_user_async : list string   (* the user's own `async fn` methods of the impl block *) }.
+                  m_user_async : list string   (* the user's own `async fn` methods of the impl block *);
+                  m_user_ret : list string     (* the user's methods that declare a return type (`-> ()` included) *) }.
 Record family := { fa_name : string; fa_fields : list (string * string); fa_ctor : option lmethod; fa_methods : list lmethod;
                    fa_members : list model; fa_unknown : list string }.
